@@ -10,6 +10,7 @@ import ast
 from ..astx import walk_no_nested, dotted, call_name, self_attr, func_params, dominating_conditions, flatten_conditions, \
     parent, ancestors, block_of
 from ..core import norm, Inconclusive
+from .. import pat
 
 
 def aug_n(fn):
@@ -69,8 +70,7 @@ def run(ctx):
                           f"{name} modifies self._n (`{norm(w[0])}`): only push, _extract_min and clear may")
     add = f_of("__add__")
     if add is not None:
-        t = ast.unparse(add.node).replace(" ", "")
-        if "merged._n=self._n+other._n" in t:
+        if pat.has("M._n = self._n + O._n", add.node, stmts=True):
             ctx.proved("R16a", fl, "FibonacciHeap.__add__", add.node, "merge sums sizes", "merged._n = self._n + other._n")
         else:
             ctx.violation("R16a", fl, "FibonacciHeap.__add__", add.node, "merge sums sizes", "the merged heap's size is not the sum of both sizes")
@@ -155,8 +155,7 @@ def run(ctx):
     ctx.rule("R16f", "minimum pointer: push replaces _min when the new node is smaller (or the heap was empty); "
                      "decrease_key replaces it when the decreased node is smaller; _extract_min restarts from a remaining "
                      "root and consolidates; _consolidate picks the smallest root")
-    t = ast.unparse(push.node).replace(" ", "")
-    if "ifself._minisNoneornode<self._min:\nself._min=node" in t.replace("    ", ""):
+    if pat.has("if self._min is None or N < self._min:\n    self._min = N", push.node, stmts=True):
         ctx.proved("R16f", fl, "FibonacciHeap.push", push.node, "push updates min", "if _min is None or node < _min: _min = node")
     else:
         ctx.violation("R16f", fl, "FibonacciHeap.push", push.node, "push updates min",
@@ -174,20 +173,20 @@ def run(ctx):
     else:
         ctx.violation("R16g", fl, "FibonacciHeap.decrease_key", dk.node, "decrease only",
                       "decrease_key no longer rejects a larger key: heap order below the node can be violated silently")
-    if f"if{'y'}isnotNoneand{xk}<y:\nself._cut({xk},y)\nself._cascading_cut(y)" in t:
+    if pat.has(f"if Y is not None and {xk} < Y:\n    self._cut({xk}, Y)\n    self._cascading_cut(Y)", dk.node, stmts=True):
         ctx.proved("R16f", fl, "FibonacciHeap.decrease_key", dk.node, "cut when below parent", "a node smaller than its parent is cut to the root list")
     else:
         ctx.violation("R16f", fl, "FibonacciHeap.decrease_key", dk.node, "cut when below parent",
                       "decrease_key does not cut a node that became smaller than its parent")
-    t = ast.unparse(ext.node).replace(" ", "").replace("    ", "")
-    if "self._min=z.right\nself._consolidate()" in t and "self._min=self._root=None" in t:
+    if pat.has("self._min = Z.right\nself._consolidate()", ext.node, stmts=True) and pat.has("self._min = self._root = None", ext.node, stmts=True):
         ctx.proved("R16f", fl, "FibonacciHeap._extract_min", ext.node, "extract re-establishes min", "restart at a remaining root, then consolidate")
     else:
         ctx.violation("R16f", fl, "FibonacciHeap._extract_min", ext.node, "extract re-establishes min",
                       "_extract_min does not restart _min from a remaining root and consolidate")
     co = f_of("_consolidate")
-    t = ast.unparse(co.node).replace(" ", "").replace("    ", "")
-    if "ify<x:\nx,y=(y,x)" in t.replace("x,y=y,x", "x,y=(y,x)") and "self._link(y,x)" in t and ("ifa[i]<=self._min:\nself._min=a[i]" in t):
+    swap = pat.first("if Y < X:\n    X, Y = Y, X", co.node)[1]
+    if swap is not None and bool(pat.find_expr(f"self._link({swap['Y']}, {swap['X']})", co.node)) \
+            and pat.has("if A[I] <= self._min:\n    self._min = A[I]", co.node, stmts=True):
         ctx.proved("R16f", fl, "FibonacciHeap._consolidate", co.node, "consolidate keeps order", "the larger root is linked under the smaller; _min = smallest root")
     else:
         ctx.violation("R16f", fl, "FibonacciHeap._consolidate", co.node, "consolidate keeps order",
